@@ -19,6 +19,13 @@ CLAIMS = {
             "the model is run against the real crate for every code x API x position.",
             "Coq proof (table + per-API lemmas) over a model validated by differential execution",
             "DESIGN.md section 5 / C11", ""),
+    "C12": ("explicit / keyed (= XXH32(key,0) mod N, a pure function of key and count) / keyless (an available partition; a window of "
+            "|available| consecutive keyless records of one topic visits each once) / unknown (unassigned, rejected) are theorems about the "
+            "partitioner model for all inputs; the per-topic rotation the wording asks for is refuted by a proved witness (shared counter, "
+            "known finding F19) and at the 2^32 wrap; the model is run against real Producers, partitions read off the wire and compared "
+            "with an independent XXH32.",
+            "Coq proof over a model validated by differential execution; refutation witnesses for the part that does not hold",
+            "DESIGN.md section 5 / C12", "C12_rotation holds for uninterrupted single-topic windows below the counter wrap (hypotheses in the statement)."),
 }
 
 NOT_YET = {}
